@@ -64,14 +64,20 @@ def guarded(strategy, seconds):
     if not seconds:
         return strategy
     deadline = time.monotonic() + seconds
+    hit = []
 
     @st.composite
     def _guard(draw):
-        if time.monotonic() > deadline:
+        if hit or time.monotonic() > deadline:
+            # hypothesis reports this as FlakyStrategyDefinition ("stopped
+            # drawing earlier"); draw_strategy() translates it back
+            hit.append(1)
             raise CaseTimeLimit(f"case exceeded {seconds}s")
         return draw(strategy)
 
-    return _guard()
+    g = _guard()
+    g._c13_hit = hit
+    return g
 
 
 def prewarm():
@@ -113,6 +119,8 @@ def draw_strategy(schema, case, hseed, n, limit=None):
     except BaseException as e:          # noqa: BLE001
         if isinstance(e, (KeyboardInterrupt, SystemExit, MemoryError)):
             raise
+        if getattr(locals().get("strat"), "_c13_hit", None):
+            e = CaseTimeLimit(f"case exceeded {limit}s")
         return _dedup(out), e
     return _dedup(out), None
 
@@ -358,6 +366,16 @@ def classify(case, fl, d):
     chk = chain[i]
     k, a = chk["k"], {n: G.dec(x) for n, x in chk["a"].items()}
     vals = [_pyval(v, cls) for v in (fl["values"] or [])]
+    if not vals and data is not None:
+        # null index labels make pandera's failure_cases frame come out empty:
+        # recompute the offending values from the draw (classification only)
+        for v in data.dropna().tolist()[:50]:
+            try:
+                if not G.holds(chk, _pyval(v, cls)):
+                    vals.append(_pyval(v, cls))
+            except Exception:           # noqa: BLE001
+                pass
+        vals = vals[:8]
     if not vals:
         return None
 
@@ -629,6 +647,16 @@ def one_case(run, case, hseed, n, verbose=False, limit=None, cold=False):
         with warnings.catch_warnings():
             warnings.simplefilter("ignore")
             verdict, info = validate_draw(schema, case, d)
+            if verdict != "ok":
+                # confirm on a pristine, equal schema: a validate() that leaves
+                # state behind on the schema object (C05's subject) must not be
+                # booked as a strategy defect
+                v2, info2 = validate_draw(G.build(case), case, d)
+                if v2 == "ok":
+                    run.count("observed:rejected_only_by_the_reused_schema_object(C05,not judged)")
+                    verdict = "ok"
+                else:
+                    verdict, info = v2, info2
         if verdict == "ok":
             run.count(P + "draw_accepted")
             continue
